@@ -17,6 +17,7 @@ pub struct Session { pub ghost id: int, pub ghost closed: bool, pub ghost open_s
 impl Session {
     #[verifier::external_body] pub fn is_closed(&self) -> (r: bool) ensures r == self.closed { unimplemented!() }
     pub fn seq(&self) -> (r: u64) ensures r == self.seqno { self.seqno }
+    #[verifier::external_body] pub fn has_open_streams(&self) -> (r: bool) ensures r == (self.open_streams > 0) { unimplemented!() }
     #[verifier::external_body]
     pub fn close(&self, fx: &mut Ghost<Seq<PEffect>>) -> (r: Result<()>)
         ensures final(fx)@ == old(fx)@.push(PEffect::Close { id: self.id })
